@@ -484,12 +484,15 @@ func ruleMigrateRound2(c *Ctx) {
 		ruleFieldsMergedPerStruct(c, "C13.10")
 		ruleWireAliasThreaded(c, "C13.11")
 		ruleProviderFuncResolvedByUses(c, "C13.12")
+		ruleExprCopiesKeepOperands(c, "C13.13")
 	} else {
 		rulePackagelessRendererOnlyAsFallback(c, "C14.6")
 		ruleNoImportForSkippedFields(c, "C14.8", ruleImportSnapshotLast(c, "C14.7"))
 		ruleMigrateRendererFidelity(c, "C14.9")
 		rulePackageMismatchRefused(c, "C14.10")
 		ruleBindConstructor(c, "C14.13")
+		ruleAliasOmission(c, "C14.14")
+		ruleSourceImportKeys(c, "C14.15")
 		ruleLoopsMakeProgress(c, "C14.12", migPkg)
 		ruleInspectVisitsEverything(c, "C14.11")
 	}
